@@ -29,7 +29,9 @@ type rulesFile struct {
 	prefix  string // NNN
 }
 
-var operandSamples = []string{" lead", "  two blanks", "\tafter tab", "trail ", " ", "old", "^foo$", `a\"b`, `x" @rx y`, `\"@rx `, "a b", `\x5c`, `(?i)sel(?:ect)?`, `[\s\x0b]+`, `a" \ b`, "", `$`, `\\x5c"`}
+var operandSamples = []string{" lead", "  two blanks", "\tafter tab", "trail ", " ", "old", "^foo$", `a\"b`, `x" @rx y`, `\"@rx `, "a b", `\x5c`, `(?i)sel(?:ect)?`, `[\s\x0b]+`, `a" \ b`, "", `$`, `\\x5c"`,
+	// operands whose text also occurs earlier on their own line
+	"ARGS", "rx", "e", "SecRule", "S", `"`, "@rx", "User-Agent"}
 
 func genRulesFile(r *rand.Rand) rulesFile {
 	prefix := fmt.Sprintf("9%02d", r.Intn(100))
@@ -330,7 +332,7 @@ func genUpdateCases(r *rand.Rand, tier string, prop string) []Case {
 			continue
 		}
 		tg := pick(r, rf.targets)
-		newRe := pick(r, []string{"new", `a\"b`, `x\"@rx y`, `$1${2}`, `(?i)a|b`, `[\s\x0b]`, "", `a b" \x`, `\x5c`, `^(?:sel)ect\b`, " lead", "trail ", "  two", "\tTab", " ", `\$_(?:GET|POST)\[`, `[0-9]+\$$`, "old", "ld", "d"})
+		newRe := pick(r, []string{"new", `name=\" \(quoted\)`, `x\" \`, `a\"b`, `x\"@rx y`, `$1${2}`, `(?i)a|b`, `[\s\x0b]`, "", `a b" \x`, `\x5c`, `^(?:sel)ect\b`, " lead", "trail ", "  two", "\tTab", " ", `\$_(?:GET|POST)\[`, `[0-9]+\$$`, "old", "ld", "d"})
 		if i%40 == 13 {
 			// a regex longer than any reader's default buffer (64 KiB): what update can write, compare can read
 			newRe = strings.Repeat("ab|cd", 14000+r.Intn(3000)) + "z"
@@ -356,7 +358,7 @@ func genUpdateCases(r *rand.Rand, tier string, prop string) []Case {
 			c.Oracles = []Op{{"c11.frame", append(append([][]byte{}, base...), []byte(strconv.Itoa(tg.line)), []byte(strconv.Itoa(tg.start)), []byte(strconv.Itoa(tg.end)))}}
 		} else {
 			// regexes that generate can print: every quote escaped, no `" \` inside
-			if !strings.Contains(newRe, `" \`) {
+			if !strings.Contains(strings.ReplaceAll(newRe, `\"`, ""), `" \`) {
 				c.Oracles = []Op{{"c12.roundtrip", base}}
 			}
 		}
@@ -364,6 +366,10 @@ func genUpdateCases(r *rand.Rand, tier string, prop string) []Case {
 			p := genProgram(r, progOpts{maxDepth: 1, maxItems: 4, exotic: 0.6, flagsPfxSf: true})
 			if i%6 == 1 {
 				p.Input = "id:" + tg.id + "\n" // the regex mentions the rule's own id (D27)
+			}
+			if i%6 == 4 {
+				// the generated regex begins or ends with a blank: what update stores is what generate prints
+				p.Input = pick(r, []string{"foo \n", "[ ]x\n", "union select \nunion all \n", "\\x20lead\n", "a\\x20\n"})
 			}
 			c.Kind = "rules-file+cli"
 			c.Oracles = append(c.Oracles, Op{"c12.cli", [][]byte{[]byte(rf.content), []byte(tg.id), []byte(strconv.Itoa(tg.chain)), []byte(p.Input)}})
